@@ -67,3 +67,224 @@ theorem split_none (obs : List (β × Bool)) (h : obs.any Prod.snd = false) : sp
   simp only at h1 h2 ⊢
   rw [h2, h, h1]; simp
 end TV.Split
+
+namespace TV.Split
+variable {β : Type}
+
+/-- a piece that ends at a marked observation and contains no other marked one (in particular it is not empty) -/
+def EndsMarked (mk : β → Bool) (p : List β) : Prop :=
+  ∃ init o, p = init ++ [o] ∧ mk o = true ∧ ∀ q ∈ init, mk q = false
+
+/-- a track whose marker feature is a function of the observation (e.g. observations = (tag, marker) pairs) -/
+def tag (mk : β → Bool) (l : List β) : List (β × Bool) := l.map (fun o => (o, mk o))
+
+theorem go_marked (mk : β → Bool) (l : List β) (cur : List β) (acc : List (List β)) (started : Bool)
+    (hacc : ∀ p ∈ acc, EndsMarked mk p) (hcur : ∀ q ∈ cur, mk q = false) :
+    (∀ p ∈ (go (tag mk l) cur acc started).1, EndsMarked mk p) ∧
+    (∀ q ∈ (go (tag mk l) cur acc started).2.1, mk q = false) := by
+  induction l generalizing cur acc started with
+  | nil => exact ⟨hacc, hcur⟩
+  | cons o rest ih =>
+    simp only [tag, List.map_cons, go]
+    cases hm : mk o with
+    | true =>
+      simp only [if_true]
+      apply ih
+      · intro p hp
+        rcases List.mem_append.mp hp with h | h
+        · exact hacc p h
+        · have : p = cur ++ [o] := by simpa using h
+          subst this
+          exact ⟨cur, o, rfl, hm, hcur⟩
+      · intro q hq; cases hq
+    | false =>
+      simp only [Bool.false_eq_true, if_false]
+      apply ih
+      · exact hacc
+      · intro q hq
+        rcases List.mem_append.mp hq with h | h
+        · exact hcur q h
+        · have : q = o := by simpa using h
+          subst this; exact hm
+
+/-- the result of `split`, as the emitted pieces followed by the tail -/
+theorem split_shape (obs : List (β × Bool)) (h : obs.any Prod.snd = true) :
+    split obs = (go obs [] [] false).1 ++ [(go obs [] [] false).2.1] := by
+  unfold split
+  obtain ⟨_, h2⟩ := go_spec obs [] [] false
+  revert h2
+  generalize go obs [] [] false = r
+  obtain ⟨acc, cur, started⟩ := r
+  intro h2
+  simp only [Bool.false_or] at h2
+  simp only at h2 ⊢
+  rw [h2, h]; simp
+
+theorem any_tag (mk : β → Bool) (l : List β) : (tag mk l).any Prod.snd = l.any mk := by
+  induction l with
+  | nil => rfl
+  | cons o rest ih => simp only [tag, List.map_cons, List.any_cons] at ih ⊢; rw [ih]
+
+/-- `split` does not look at the observations: it commutes with relabelling them -/
+theorem go_map {γ : Type} (f : β → γ) (obs : List (β × Bool)) (cur : List β) (acc : List (List β)) (st : Bool) :
+    go (obs.map (fun p => (f p.1, p.2))) (cur.map f) (acc.map (List.map f)) st =
+      (((go obs cur acc st).1).map (List.map f), ((go obs cur acc st).2.1).map f, (go obs cur acc st).2.2) := by
+  induction obs generalizing cur acc st with
+  | nil => rfl
+  | cons p rest ih =>
+    obtain ⟨o, m⟩ := p
+    cases m with
+    | true =>
+      simp only [List.map_cons, go, if_true]
+      have := ih [] (acc ++ [cur ++ [o]]) true
+      simpa using this
+    | false =>
+      simp only [List.map_cons, go, Bool.false_eq_true, if_false]
+      have := ih (cur ++ [o]) acc st
+      simpa using this
+
+theorem split_map {γ : Type} (f : β → γ) (obs : List (β × Bool)) :
+    split (obs.map (fun p => (f p.1, p.2))) = (split obs).map (List.map f) := by
+  have h := go_map f obs [] [] false
+  simp only [List.map_nil] at h
+  unfold split
+  rw [h]
+  cases hs : (go obs [] [] false).2.2 <;> simp [hs]
+end TV.Split
+
+namespace TV.Split
+
+theorem threshold_lt (ths : List Rat) (i : Nat) (h : i < ths.length) :
+    threshold ths i = some (some ths[i]) := by
+  unfold threshold
+  have h' : ths.length ≥ i := Nat.le_of_lt h
+  simp [h', List.getElem?_eq_getElem h]
+
+/-- quantification over the positions of a row, split at the head -/
+theorem forall_idx_cons {P : Nat → Option Rat → Prop} (x : Option Rat) (vs : List (Option Rat)) :
+    (∀ i w, (x :: vs)[i]? = some w → P i w) ↔ (P 0 x ∧ ∀ i w, vs[i]? = some w → P (i + 1) w) := by
+  constructor
+  · intro h
+    exact ⟨h 0 x (by simp), fun i w hw => h (i + 1) w (by simpa using hw)⟩
+  · rintro ⟨h0, hs⟩ i w hw
+    cases i with
+    | zero => simp at hw; subst hw; exact h0
+    | succ i => exact hs i w (by simpa using hw)
+
+/-- AND mode: the fold is `acc` and "every non-NaN value is ≤ its threshold" -/
+theorem foldCmp_and (ths : List Rat) : ∀ (vals : List (Option Rat)) (idx : Nat) (acc : Bool),
+    idx + vals.length ≤ ths.length →
+    ∃ r, foldCmp true ths idx vals acc = some r ∧
+      (r = true ↔ acc = true ∧ ∀ i w, vals[i]? = some w → ∀ v th, w = some v → ths[idx + i]? = some th → v ≤ th) := by
+  intro vals
+  induction vals with
+  | nil => intro idx acc _; exact ⟨acc, rfl, by simp⟩
+  | cons x vs ih =>
+    intro idx acc hlen
+    simp only [List.length_cons] at hlen
+    rw [forall_idx_cons (P := fun i w => ∀ v th, w = some v → ths[idx + i]? = some th → v ≤ th)]
+    cases x with
+    | none =>
+      obtain ⟨r, hr, hiff⟩ := ih (idx + 1) acc (by omega)
+      refine ⟨r, by simpa [foldCmp] using hr, ?_⟩
+      rw [hiff]
+      have e : ∀ i, idx + 1 + i = idx + (i + 1) := by intro i; omega
+      simp only [e]
+      constructor
+      · rintro ⟨a, b⟩
+        refine ⟨a, ?_, b⟩
+        intro v th hv; cases hv
+      · rintro ⟨a, _, b⟩; exact ⟨a, b⟩
+    | some v =>
+      have hidx : idx < ths.length := by omega
+      obtain ⟨r, hr, hiff⟩ := ih (idx + 1) (acc && decide (v ≤ ths[idx])) (by omega)
+      refine ⟨r, by simpa [foldCmp, threshold_lt ths idx hidx] using hr, ?_⟩
+      rw [hiff]
+      have e : ∀ i, idx + 1 + i = idx + (i + 1) := by intro i; omega
+      simp only [e, Bool.and_eq_true, decide_eq_true_eq, Nat.add_zero]
+      constructor
+      · rintro ⟨⟨a, c⟩, b⟩
+        refine ⟨a, ?_, b⟩
+        intro v' th hv hth
+        cases hv
+        rw [List.getElem?_eq_getElem hidx] at hth
+        cases hth; exact c
+      · rintro ⟨a, c, b⟩
+        exact ⟨⟨a, c v ths[idx] rfl (List.getElem?_eq_getElem hidx)⟩, b⟩
+
+/-- OR mode: the fold is `acc` or "some non-NaN value is ≤ its threshold" -/
+theorem foldCmp_or (ths : List Rat) : ∀ (vals : List (Option Rat)) (idx : Nat) (acc : Bool),
+    idx + vals.length ≤ ths.length →
+    ∃ r, foldCmp false ths idx vals acc = some r ∧
+      (r = false ↔ acc = false ∧ ∀ i w, vals[i]? = some w → ∀ v th, w = some v → ths[idx + i]? = some th → th < v) := by
+  intro vals
+  induction vals with
+  | nil => intro idx acc _; exact ⟨acc, rfl, by simp⟩
+  | cons x vs ih =>
+    intro idx acc hlen
+    simp only [List.length_cons] at hlen
+    rw [forall_idx_cons (P := fun i w => ∀ v th, w = some v → ths[idx + i]? = some th → th < v)]
+    cases x with
+    | none =>
+      obtain ⟨r, hr, hiff⟩ := ih (idx + 1) acc (by omega)
+      refine ⟨r, by simpa [foldCmp] using hr, ?_⟩
+      rw [hiff]
+      have e : ∀ i, idx + 1 + i = idx + (i + 1) := by intro i; omega
+      simp only [e]
+      constructor
+      · rintro ⟨a, b⟩
+        refine ⟨a, ?_, b⟩
+        intro v th hv; cases hv
+      · rintro ⟨a, _, b⟩; exact ⟨a, b⟩
+    | some v =>
+      have hidx : idx < ths.length := by omega
+      obtain ⟨r, hr, hiff⟩ := ih (idx + 1) (acc || decide (v ≤ ths[idx])) (by omega)
+      refine ⟨r, by simpa [foldCmp, threshold_lt ths idx hidx] using hr, ?_⟩
+      rw [hiff]
+      have e : ∀ i, idx + 1 + i = idx + (i + 1) := by intro i; omega
+      simp only [e, Bool.or_eq_false_iff, decide_eq_false_iff_not, Rat.not_le, Nat.add_zero]
+      constructor
+      · rintro ⟨⟨a, c⟩, b⟩
+        refine ⟨a, ?_, b⟩
+        intro v' th hv hth
+        cases hv
+        rw [List.getElem?_eq_getElem hidx] at hth
+        cases hth; exact c
+      · rintro ⟨a, c, b⟩
+        exact ⟨⟨a, c v ths[idx] rfl (List.getElem?_eq_getElem hidx)⟩, b⟩
+end TV.Split
+
+namespace TV.Split
+variable {β : Type}
+
+theorem getLast?_cons' (o : β) (rest : List β) :
+    (o :: rest).getLast? = if rest = [] then some o else rest.getLast? := by
+  cases rest with
+  | nil => rfl
+  | cons p ps => simp [List.getLast?_cons_cons]
+
+/-- the current piece at the end of the loop is empty exactly when nothing was scanned into an empty piece, or the
+last observation scanned is marked -/
+theorem go_cur_nil (mk : β → Bool) (l : List β) (cur : List β) (acc : List (List β)) (st : Bool) :
+    (go (tag mk l) cur acc st).2.1 = [] ↔
+      (l = [] ∧ cur = []) ∨ (∃ o, l.getLast? = some o ∧ mk o = true) := by
+  induction l generalizing cur acc st with
+  | nil => simp [tag, go]
+  | cons o rest ih =>
+    simp only [tag, List.map_cons, go]
+    rw [getLast?_cons']
+    simp only [tag] at ih
+    cases hm : mk o with
+    | true =>
+      simp only [if_true]
+      rw [ih]
+      by_cases hr : rest = []
+      · subst hr; simp [hm]
+      · simp [hr]
+    | false =>
+      simp only [Bool.false_eq_true, if_false]
+      rw [ih]
+      by_cases hr : rest = []
+      · subst hr; simp [hm]
+      · simp [hr]
+end TV.Split
